@@ -10,6 +10,12 @@ def x_obligations(tier):
     for pre in (["", "h/a/"] if tier == "quick" else ["", "h/a/", "h/s/q1/v1/"]):
         o.append(Obl(f"C12-finder[{pre!r}+{n}]", M, "finder_laws", env={"VF_PRE": pre, "VF_N": str(n), "VF_SEARCH": "h/*/*"}, timeout=T, family="C12-finder",
                      bound=f"do_find yields 0..3 entries, two of them {pre!r}+a, {pre!r}+b with 1<=len<={n} (arbitrary strings, possibly no Sids)"))
+    for search in ["h/a/x/v1/y", "h/a/x/v1/m"]:
+        o.append(Obl(f"C12-finder-sidobject[{search}]", M, "finder_sidobject", env={"VF_PRE": "h/a/x/v1/", "VF_N": "1", "VF_SEARCH": search}, timeout=T, family="C12-finder",
+                     bound="as C12-finder, the search handed over as a typed non-search Sid object (one ending in an extension alias, one plain)"))
+    for sid, epre, esuf, fixed in [("h/a/x", "h/a/", "", "h/a/x"), ("h/a/x", "h/a/x/v", "", "h/a/x/v1"), ("h/s/q1/v1/c", "h/s/q1/v1/", "", "h/s/q1/v1/c")]:
+        o.append(Obl(f"C12-after-change[{sid},{epre!r}+a]", M, "sid_laws_after_change", env={"VF_SID": sid, "VF_EPRE": epre, "VF_ESUF": esuf, "VF_FIXED": fixed, "VF_N": "1", "VF_CACHES": "1"}, timeout=60 if tier == "quick" else T,
+                     expect="find", family="C12-sid", bound="siblings / children / exists before and after an entity is created -- spil's caches ON (keys are realised: bug-hunt, exhaustion not expected)"))
     cases = [("h/a/x", "h/a/", "", "h/a/x/v1"), ("h/a/x", "h/a/x/", "", "h/a/x"), ("h/s/q1/v1", "h/s/q1/v", "", "h/s/q1/v1/c"), ("h/s/q1/v1/c", "h/s/q1/v1/", "/j", "h/s/q1/v1/c"),
              ("h/a/x/v1/m", "h/a/x/v1/", "", ""), ("h", "h/", "", "h/a"), ("h/s/q1/v1/o", "h/s/q1/v1/o/", "", "h/s/q1/v1/o")]
     for sid, epre, esuf, fixed in cases:
